@@ -215,6 +215,7 @@ impl EGraph {
             final(self).canonical() == old(self).canonical(),
             final(self).db.uf_len() == old(self).db.uf_len(),
             final(self).db.phase() == 0,
+            final(self).db.panic_pending() == old(self).db.panic_pending(),
 //@ end-fn
 
 //@ fn rebuild
@@ -258,23 +259,31 @@ impl EGraph {
 //@ fn flush_updates_inner
 //@ ret r
 //@ at sig
-        requires old(self).wf(), old(self).canonical(),
+        requires old(self).wf(), old(self).canonical(), !old(self).db.panic_pending(),
         ensures
             final(self).same_shape(old(self)),
             final(self).canonical(),
             final(self).ts() > old(self).ts(),
+            // C05 (last sentence) / C09: a panic raised by a merge function (a :no-merge conflict) while the staged updates
+            // are merged or while rebuilding must not be left unread: it would be lost, or be reported by a later,
+            // unrelated command. KNOWN FINDING F4: this function never reads the side channel.
+            !final(self).db.panic_pending(), // [only: C05]
 //@ end-fn
 
 //@ fn run_rules_inner
 //@ ret r
+//@ rewrite R-SIDECHAN panic_message db
 //@ at sig
-        requires old(self).wf(), old(self).canonical(),
+        requires old(self).wf(), old(self).canonical(), !old(self).db.panic_pending(),
         ensures
             final(self).same_shape(old(self)),
             // C04: canonical on every exit, Ok and Err alike (failed commands included)
             final(self).canonical(),
             // C03: a successful run strictly advances the timestamp, rebuild or not
             r is Ok ==> final(self).ts() > old(self).ts(),
+            // C05 (last sentence): a successful run leaves no panic message unread - a conflict raised by the rules, by
+            // the merge of their writes or by the rebuild (collisions created by rebuilding) is reported by THIS command
+            r is Ok ==> !final(self).db.panic_pending(), // [only: C05]
 //@ end-fn
 //@ end-impl
 
